@@ -13,9 +13,11 @@ EXPLANATION = (
     'and complex scalar types instantiated. AST: generator objects are automatic locals, never fields or statics; every seed '
     'expression has only integer literals and loop counters as leaves (through the seed parameter of expand_basis and its '
     'call sites); seed normalisation maps [0, 2^31-1] into [1, 2^31-1] (0 -> 1, identity otherwise); Eigen\'s '
-    'rand()-based Random()/setRandom() are never called. Does NOT decide that the split multiplication equals '
-    '16807*s mod (2^31-1) for all 2^31-2 states, the range [-0.5, 0.5] of draws, or non-degeneracy of the state: those '
-    'are number-theoretic facts over 2^31 values that need enumeration or a bit-vector solver, a different technique.')
+    'rand()-based Random()/setRandom() are never called. Interval abstract interpretation of the step function (path-sensitive over its two folds, precise '
+    'transfer for masks) shows that [0, 2^31-1] is an inductive invariant of the state, hence every draw '
+    'state/(2^31-1) - 0.5 lies in [-0.5, 0.5] (both components of complex draws). Does NOT decide that the split '
+    'multiplication equals 16807*s mod (2^31-1) for all 2^31-2 states, nor non-degeneracy of the state (never 0 or 2^31-1): '
+    'those are number-theoretic facts that need enumeration or a bit-vector solver, a different technique.')
 ASSUMPTIONS = ['LLVM IR produced by clang 14 for the drivers represents the generator faithfully (same source, -O0)',
                'std::complex constructor only stores its two arguments']
 
@@ -66,6 +68,54 @@ def ir_effects(ctx):
     if n_step < 1 or n_run < 4 or n_rand < 4 or n_ctor < 4:
         raise AnalysisBroken('generator functions missing from the IR (step %d, run %d, random %d, ctor %d)' % (n_step, n_run, n_rand, n_ctor))
     ctx.info.setdefault('ir_modules', sorted(lls))
+
+
+def state_range(ctx, rule='generator-state-range'):
+    """Interval abstract interpretation of the step function (path-sensitive over its folds): [0, 2^31-1] is an inductive
+    invariant of the state, hence every draw state/(2^31-1) - 0.5 lies in [-0.5, 0.5]."""
+    from . import interval
+    M = 2 ** 31 - 1
+    fns = ctx.F.insts('Spectra::next_long_rand')
+    for fn in fns:
+        (lo, hi), npaths = interval.result_range(fn, [(0, M)])
+        ok = lo >= 0 and hi <= M
+        ctx.check(ok, rule, 'next_long_rand', fn.qname,
+                  'state in [0, 2^31-1] => next state in [%d, %d] (subset): inductive over %d paths' % (lo, hi, npaths) if ok else
+                  'for a state in [0, 2^31-1] the next state may be as large as %d > 2^31-1 (a draw above 0.5, and a state outside the generator\'s range)' % hi
+                  if hi > M else 'next state may be negative (%d)' % lo)
+    # the draw is state / (2^31-1) - 0.5 (real types); complex: two real draws
+    n = 0
+    for fn in ctx.F.insts('Spectra::RandomScalar::run'):
+        rets = [x for x in fn.walk() if x['k'] == 'ReturnStmt']
+        t = sym(fn, rets[0]['value'])
+        p0 = fn.locals[fn.params[0]]['name']
+        n += 1
+        if fn.cargs and fn.cargs[0].startswith('std::complex'):
+            calls = [x for x in fn.walk() if x['k'] == 'CallExpr' and x.get('callee') == 'run']
+            ok = len(calls) == 2 and all(sym(fn, fn.call_args(c)[0], inline=False) == ('P', p0) for c in calls)
+            ctx.check(ok, rule, 'RandomScalar<complex>::run', fn.qname, 'two real draws from the same seed reference' if ok else 'complex draw is not two real draws')
+            continue
+        # seed = step(seed) precedes the return
+        asg = [sym(fn, x, inline=False) for x in fn.walk() if x['k'] == 'BinaryOperator' and x.get('op') == '=']
+        step_ok = ('=', ('P', p0), ('call', 'next_long_rand', ('P', p0))) in asg
+        def lit(v):
+            return isinstance(v, tuple) and v[0] == 'lit'
+        shape = t[0] == '-' and lit(t[2]) and t[2][1] in ('0.5', '0') and t[1][0] == '/' and t[1][1] == ('P', p0)
+        den = t[1][2] if shape else None
+        den_ok = False
+        if shape:
+            for x in fn.walk(rets[0]['value']):
+                if x['k'] == 'DeclRefExpr' and x.get('cval') == str(M):
+                    den_ok = True
+                if x['k'] == 'IntegerLiteral' and x.get('val') == str(M):
+                    den_ok = True
+        half = shape and t[2][1] == '0.5'
+        ok = step_ok and shape and den_ok and half
+        ctx.check(ok, rule, 'RandomScalar::run', fn.qname,
+                  'draw = state / (2^31-1) - 0.5 with state in [0, 2^31-1]  =>  [-0.5, 0.5]' if ok else
+                  'draw is %s (state advanced first: %s)' % (show(t), step_ok))
+    if n < 4:
+        raise AnalysisBroken('only %d RandomScalar::run instantiations' % n)
 
 
 def seed_normalisation(ctx, rule='seed-normalisation'):
@@ -171,6 +221,7 @@ def no_eigen_random(ctx, rule='no-rand-based-eigen-random'):
 
 def run(ctx):
     ir_effects(ctx)
+    state_range(ctx)
     seed_normalisation(ctx)
     seed_provenance(ctx)
     hygiene.rng_objects_are_locals(ctx)
